@@ -1236,11 +1236,34 @@ class Mesh:
     def remove_duplicate_nodes(self):
         p, t = self._remove_duplicate_nodes(self.doflocs,
                                             self.t)
-        return replace(
+        m = replace(
             self,
             doflocs=p,
             t=t,
+            _boundaries=None,
         )
+        if self._boundaries is None:
+            return m
+
+        # the vertices are renumbered and hence also the facets: find the
+        # new index of each facet among the facets of one of its elements
+        # which have kept their indices
+        newp = np.zeros(self.doflocs.shape[1], dtype=np.int64)
+        newp[self.t] = t
+        candidates = m.t2f[:, self.f2t[0]]
+        match = (np.sort(m.facets[:, candidates], axis=0)
+                 == np.sort(newp[self.facets], axis=0)[:, None]).all(axis=0)
+        newf = candidates[match.argmax(axis=0), np.arange(self.nfacets)]
+
+        boundaries = {}
+        for name, ixs in self._boundaries.items():
+            if isinstance(ixs, OrientedBoundary):
+                # ori tells which element in f2t the facet belongs to
+                ori = m.f2t[1, newf[ixs]] == self.f2t[ixs.ori, ixs]
+                boundaries[name] = OrientedBoundary(newf[ixs], ori)
+            else:
+                boundaries[name] = np.unique(newf[ixs])
+        return replace(m, _boundaries=boundaries)
 
     def element_finder(self, mapping=None):
         """Return a function handle from location to element index.
